@@ -497,7 +497,9 @@ def run_case(case):
             import copy
             import pickle
             for how, fn in (("copy.copy", copy.copy), ("copy.deepcopy", copy.deepcopy),
-                            ("pickle round trip", lambda o: pickle.loads(pickle.dumps(o)))):
+                            ("pickle round trip", lambda o: pickle.loads(pickle.dumps(o))),
+                            ("pickle protocol 0 round trip", lambda o: pickle.loads(pickle.dumps(o, protocol=0))),
+                            ("pickle protocol 2 round trip", lambda o: pickle.loads(pickle.dumps(o, protocol=2)))):
                 try:
                     c = fn(obj)
                 except Exception as e:  # noqa
